@@ -342,7 +342,8 @@ func (c13Engine) Gen(r *core.Rand, tier string, i int) any {
 	}
 	sc.Cmds = map[string]string{
 		"K1": "slurp;exit:" + strconv.Itoa(r.Range(0, 3)),
-		"K2": "slurp;exit:" + strconv.Itoa(core.Pick(r, []int{0, 7, 255})),
+		// (the tail is never executed; it makes the command text one that path canonicalisation would change)
+		"K2": "slurp;exit:" + strconv.Itoa(core.Pick(r, []int{0, 7, 255})) + ";nop:a//b/./c/../",
 		"K3": "slurp;kill:9",
 		"S1": "emit:111;exit:" + strconv.Itoa(r.Range(0, 3)),
 		"S2": "emit:22;emit:2222;exit:0",
